@@ -922,7 +922,8 @@ class Mps(MatrixProduct):
             self.ensure_left_canonical()
 
         # `self` should not be modified during the evolution
-        if imag_time:
+        # a real state stays real in imaginary time only if the Hamiltonian is real
+        if imag_time and isinstance(mpo, Mpo) and not mpo.is_complex:
             mps = self.copy()
         else:
             mps = self.to_complex()
@@ -1128,7 +1129,8 @@ class Mps(MatrixProduct):
         # `self` should not be modified during the evolution
         # mps: the mps to return
         # environ_mps: mps to construct environ
-        if imag_time:
+        # a real state stays real in imaginary time only if the Hamiltonian is real
+        if imag_time and not mpo.is_complex:
             mps = self.copy()
         else:
             mps = self.to_complex()
@@ -1282,7 +1284,8 @@ class Mps(MatrixProduct):
         # TDVP projector splitting
         # one-site
         if np.iscomplex(evolve_dt):
-            mps = self.copy()
+            # a real state stays real in imaginary time only if the Hamiltonian is real
+            mps = self.to_complex() if mpo.is_complex else self.copy()
             if self.evolve_config.ivp_solver != "krylov":
                 evolve_dt = -evolve_dt.imag
                 # used in calculating derivatives
@@ -1427,7 +1430,8 @@ class Mps(MatrixProduct):
         # TDVP projector splitting
         # two-site
         if np.iscomplex(evolve_dt):
-            mps = self.copy()
+            # a real state stays real in imaginary time only if the Hamiltonian is real
+            mps = self.to_complex() if mpo.is_complex else self.copy()
             if self.evolve_config.ivp_solver != "krylov":
                 evolve_dt = -evolve_dt.imag
                 # used in calculating derivatives
